@@ -173,7 +173,8 @@ Definition pw_out (g : gpw) (o : output) : option gpw :=
       let p := match w_plan g with [] => (0, 2) | p :: _ => p end in
       let g1 := mkPW PIdle (match w_plan g with [] => [] | _ :: r => r end) (w_lp g) in
       let l := List.last blk m0 in
-      if (fst p =? 1) || (fst p =? 2) then Some (mkPW (PApi l (snd p)) (w_plan g1) (w_lp g1))   (* it calls stop()/commit() first *)
+      if (fst p =? 1) || (fst p =? 2) || (fst p =? 3)
+      then Some (mkPW (PApi l (snd p)) (w_plan g1) (w_lp g1))        (* it calls stop() / commit() / shutdown() first *)
       else Some (pw_finish g1 l (snd p))
     | _, _ => None                       (* VIOLATION: invoked while not idle / with no messages *)
     end
